@@ -185,6 +185,9 @@ fn frames(out: &mut Out, st: &Step, s0: &[&str], s1: &[&str], c0: usize, c1: usi
         Some(ev) => (ev.code as u8) >= (N1 as u8) && (ev.code as u8) <= (N0 as u8) && !ev.modifiers.ctrl && !ev.modifiers.shift,
         None => opname == "select",
     };
+    // (FX1 repair: a category of the symbol table without symbols has nothing to list - choosing it closes the list
+    // without a choice)
+    let choosing = choosing && !crate::oracle_c07::chose_empty_category(st);
     if f.insert_list && f.moved {
         // the symbol table opened with ` saves no cursor; after j / k it is a list on another symbol
         FSTATS.with(|x| x.borrow_mut().skipped_moved_insert_list += 1);
